@@ -8,46 +8,7 @@ use vstd::arithmetic::mul::*;
 
 verus! {
 
-pub struct Cfg { pub wb: nat, pub sb: nat }
-pub open spec fn cfg_ok(c: Cfg, prec: nat) -> bool { c.wb >= 1 && prec >= 1 && prec <= c.wb && c.sb >= c.wb + prec && c.sb >= 2 * c.wb }
-pub open spec fn entry_ok(cum: nat, p: nat, prec: nat) -> bool { p >= 1 && cum + p <= pow2(prec) }
-
-// abstract encoder interval [l, l+r) at scale 2^-(wb*n + sb); n = number of renormalisations so far
-pub struct Enc { pub l: nat, pub r: nat, pub n: nat }
-pub open spec fn enc_inv(c: Cfg, s: Enc) -> bool { pow2((c.sb - c.wb) as nat) <= s.r < pow2(c.sb) }
-pub open spec fn enc_step(c: Cfg, s: Enc, cum: nat, p: nat, prec: nat) -> Enc {
-    let scale = s.r / pow2(prec);
-    let l1 = s.l + scale * cum; let r1 = scale * p;
-    if r1 < pow2((c.sb - c.wb) as nat) { Enc { l: l1 * pow2(c.wb), r: r1 * pow2(c.wb), n: s.n + 1 } } else { Enc { l: l1, r: r1, n: s.n } }
-}
-
-// value of the first m words of the data, zero padded
-pub open spec fn pv(c: Cfg, d: Seq<nat>, m: nat) -> nat decreases m {
-    if m == 0 { 0 } else { pv(c, d, (m - 1) as nat) * pow2(c.wb) + (if m - 1 < d.len() { d[m - 1] } else { 0 }) }
-}
-pub open spec fn words_ok(c: Cfg, d: Seq<nat>) -> bool { forall|i: int| 0 <= i < d.len() ==> d[i] < pow2(c.wb) }
-pub open spec fn nwin(c: Cfg) -> nat { c.sb / c.wb }
-// X (the data) lies in the encoder's interval
-pub open spec fn contains(c: Cfg, s: Enc, d: Seq<nat>) -> bool { s.l <= pv(c, d, s.n + nwin(c)) < s.l + s.r }
-
-// abstract decoder (machine-width values)
-pub struct Dec { pub lower: nat, pub range: nat, pub point: nat, pub n: nat }
-pub open spec fn coupled(c: Cfg, s: Enc, t: Dec, d: Seq<nat>) -> bool {
-    let m = pow2(c.sb);
-    t.range == s.r && t.n == s.n && t.lower == s.l % m && t.point == pv(c, d, s.n + nwin(c)) % m
-}
-pub open spec fn dec_quantile(c: Cfg, t: Dec, prec: nat) -> nat {
-    let m = pow2(c.sb);
-    (((t.point + m - t.lower) as nat) % m) / (t.range / pow2(prec))
-}
-pub open spec fn dec_step(c: Cfg, t: Dec, cum: nat, p: nat, prec: nat, next_word: nat) -> Dec {
-    let m = pow2(c.sb);
-    let scale = t.range / pow2(prec);
-    let lower1 = (t.lower + scale * cum) % m; let r1 = scale * p;
-    if r1 < pow2((c.sb - c.wb) as nat) {
-        Dec { lower: (lower1 * pow2(c.wb)) % m, range: r1 * pow2(c.wb), point: (t.point * pow2(c.wb)) % m + next_word, n: t.n + 1 }
-    } else { Dec { lower: lower1, range: r1, point: t.point, n: t.n } }
-}
+//@INCLUDE frag_range_interval.rs
 
 proof fn lemma_div_bounds(x: nat, d: nat, lo: nat, hi: nat)
     requires d > 0, d * lo <= x < d * hi
@@ -181,6 +142,98 @@ pub proof fn lemma_nested(c: Cfg, s: Enc, d: Seq<nat>, cum: nat, p: nat, prec: n
     }
 }
 
+
+// ---------- C02: whole messages of any length ----------
+pub struct E { pub cum: nat, pub p: nat, pub prec: nat }
+pub open spec fn e_ok(c: Cfg, e: E) -> bool { cfg_ok(c, e.prec) && entry_ok(e.cum, e.p, e.prec) }
+pub open spec fn all_ok(c: Cfg, es: Seq<E>) -> bool { forall|i: int| 0 <= i < es.len() ==> e_ok(c, #[trigger] es[i]) }
+
+/// encoder interval after encoding es[0], es[1], ... in this order
+pub open spec fn enc_run(c: Cfg, s: Enc, es: Seq<E>) -> Enc decreases es.len() {
+    if es.len() == 0 { s } else { enc_run(c, enc_step(c, s, es[0].cum, es[0].p, es[0].prec), es.drop_first()) }
+}
+pub open spec fn next_word(c: Cfg, s: Enc, d: Seq<nat>) -> nat { let idx = s.n + nwin(c); if idx < d.len() { d[idx as int] } else { 0 } }
+
+pub proof fn lemma_enc_inv_step(c: Cfg, s: Enc, cum: nat, p: nat, prec: nat)
+    requires cfg_ok(c, prec), enc_inv(c, s), entry_ok(cum, p, prec)
+    ensures enc_inv(c, enc_step(c, s, cum, p, prec))
+{
+    let P2 = pow2(prec); let th = pow2((c.sb - c.wb) as nat); let W = pow2(c.wb); let m = pow2(c.sb);
+    let k = pow2((c.sb - c.wb - prec) as nat);
+    lemma_pow2_pos(prec); lemma_pow2_pos(c.wb); lemma_pow2_pos((c.sb - c.wb - prec) as nat);
+    lemma_pow2_adds((c.sb - c.wb) as nat, c.wb);
+    lemma_pow2_adds((c.sb - c.wb - prec) as nat, prec);
+    let scale = s.r / P2; let r1 = scale * p;
+    lemma_fundamental_div_mod(s.r as int, P2 as int); lemma_mod_bound(s.r as int, P2 as int);
+    lemma_mul_is_commutative(scale as int, P2 as int);
+    // scale >= k
+    assert(scale >= k) by { if scale < k { lemma_mul_inequality((scale + 1) as int, k as int, P2 as int); lemma_mul_is_distributive_add_other_way(P2 as int, scale as int, 1); } }
+    // r1 <= scale*P2 <= r < m ; r1 >= scale >= k
+    lemma_mul_inequality(p as int, P2 as int, scale as int); lemma_mul_is_commutative(scale as int, p as int);
+    lemma_mul_inequality(1, p as int, scale as int);
+    if r1 < th {
+        // r1*W >= k*W >= k*P2 = th ; r1*W < th*W = m
+        assert(P2 <= W) by { if prec < c.wb { lemma_pow2_strictly_increases(prec, c.wb); } }
+        lemma_mul_inequality(k as int, r1 as int, W as int);
+        lemma_mul_inequality(P2 as int, W as int, k as int); lemma_mul_is_commutative(k as int, P2 as int); lemma_mul_is_commutative(k as int, W as int);
+        lemma_mul_inequality((r1 + 1) as int, th as int, W as int); lemma_mul_is_distributive_add_other_way(W as int, r1 as int, 1);
+    }
+}
+
+/// nestedness along a whole message: data inside the final interval is inside every earlier one
+pub proof fn lemma_contains_chain(c: Cfg, s: Enc, es: Seq<E>, d: Seq<nat>)
+    requires enc_inv(c, s), all_ok(c, es), words_ok(c, d), contains(c, enc_run(c, s, es), d)
+    ensures contains(c, s, d)
+    decreases es.len()
+{
+    if es.len() > 0 {
+        let e = es[0];
+        lemma_enc_inv_step(c, s, e.cum, e.p, e.prec);
+        assert(all_ok(c, es.drop_first())) by { assert forall|i: int| 0 <= i < es.drop_first().len() implies e_ok(c, #[trigger] es.drop_first()[i]) by { assert(es.drop_first()[i] == es[i + 1]); } }
+        lemma_contains_chain(c, enc_step(c, s, e.cum, e.p, e.prec), es.drop_first(), d);
+        lemma_nested(c, s, d, e.cum, e.p, e.prec);
+    }
+}
+
+/// decoder run: the i-th decoded quantile and the decoder state after the whole message
+pub open spec fn dec_run(c: Cfg, s: Enc, t: Dec, es: Seq<E>, d: Seq<nat>) -> Dec decreases es.len() {
+    if es.len() == 0 { t } else {
+        let e = es[0];
+        dec_run(c, enc_step(c, s, e.cum, e.p, e.prec), dec_step(c, t, e.cum, e.p, e.prec, next_word(c, s, d)), es.drop_first(), d)
+    }
+}
+pub open spec fn quantiles_ok(c: Cfg, s: Enc, t: Dec, es: Seq<E>, d: Seq<nat>) -> bool decreases es.len() {
+    if es.len() == 0 { true } else {
+        let e = es[0]; let q = dec_quantile(c, t, e.prec);
+        e.cum <= q < e.cum + e.p
+        && quantiles_ok(c, enc_step(c, s, e.cum, e.p, e.prec), dec_step(c, t, e.cum, e.p, e.prec, next_word(c, s, d)), es.drop_first(), d)
+    }
+}
+
+/// C02 for messages of ANY length: if the data (sealed words followed by anything) lies in the
+/// encoder's final interval, a decoder that starts coupled decodes, at every position, a quantile
+/// inside the interval of the symbol that was encoded there (so a valid model returns that
+/// symbol), and ends coupled to the encoder's final state.
+pub proof fn lemma_message_roundtrip(c: Cfg, s: Enc, t: Dec, es: Seq<E>, d: Seq<nat>)
+    requires c.sb % c.wb == 0, enc_inv(c, s), all_ok(c, es), words_ok(c, d), coupled(c, s, t, d), contains(c, enc_run(c, s, es), d)
+    ensures quantiles_ok(c, s, t, es, d), coupled(c, enc_run(c, s, es), dec_run(c, s, t, es, d), d)
+    decreases es.len()
+{
+    if es.len() > 0 {
+        let e = es[0]; let rest = es.drop_first();
+        let s1 = enc_step(c, s, e.cum, e.p, e.prec);
+        lemma_enc_inv_step(c, s, e.cum, e.p, e.prec);
+        assert(all_ok(c, rest)) by { assert forall|i: int| 0 <= i < rest.len() implies e_ok(c, #[trigger] rest[i]) by { assert(rest[i] == es[i + 1]); } }
+        lemma_contains_chain(c, s, es, d);
+        lemma_contains_chain(c, s1, rest, d);
+        lemma_coupling(c, s, t, d, e.cum, e.p, e.prec);
+        lemma_message_roundtrip(c, s1, dec_step(c, t, e.cum, e.p, e.prec, next_word(c, s, d)), rest, d);
+    }
+}
+proof fn lemma_message_roundtrip_reach(c: Cfg, s: Enc, t: Dec, es: Seq<E>, d: Seq<nat>)
+    requires c.sb % c.wb == 0, enc_inv(c, s), all_ok(c, es), words_ok(c, d), coupled(c, s, t, d), contains(c, enc_run(c, s, es), d), es.len() >= 2
+    ensures false
+{}
 
 // ---------- vacuity probes (must FAIL) ----------
 proof fn lemma_coupling_reach(c: Cfg, s: Enc, t: Dec, d: Seq<nat>, cum: nat, p: nat, prec: nat)
